@@ -19,7 +19,8 @@ EXPLANATION = (
     "entries, dims object, dimension list) must be unchanged. Stock classes and lifetime models are constructed abstractly with "
     "components over the same / permuted / time-last / foreign / shorter dims and same letters with other items: all but 'same' "
     "must be refused. A structural rule confines direct rebinding of .values/.dims to the frozen sites. Because every operation "
-    "preserves the invariant from any state satisfying it and a failed one changes nothing, it holds after any sequence.")
+    "preserves the invariant from any state satisfying it and a failed one changes nothing, it holds after any sequence. "
+    "Lifetime parameters over a dimension with other items (one item only / one more) are refused; a compute() that raises half-way (scipy's finiteness check on a later label) leaves all arrays of the stock unchanged (exact array domain).")
 TECHNIQUE = "static analysis: abstract interpretation with heap snapshots (invariant after every abstract evaluation, unchanged inputs after every raising one) + who-may-rebind rule"
 
 
